@@ -52,6 +52,13 @@ CHECKS = {
             'exact line for lexical errors, layout-independent line for grammar errors, truncated text never accepted.',
             '5.C11'),
 }
+CHECKS['C16'] = ('complete enumeration of SMIv1 base-module symbols against an independent home table; bounded exhaustive '
+                 'enumeration of SMIv1 module shapes compared with their SMIv2 transliteration',
+                 'Every (SMIv1 module, symbol) with an SMIv2 home is imported by a test module and the JSON imports table / the '
+                 'importSymbols() calls of the executed pysnmp module must name the home given by an independent rule table; '
+                 'SMIv1 scalars of every type x ACCESS word, tables, traps and sequences of them are rendered as SMIv1 and as '
+                 'SMIv2 text and must yield the same symbols, OIDs, classes, node types, access, lists and pysnmp classes.',
+                 '5.C16')
 NOT_YET = {}
 
 ALL = ['C%02d' % i for i in range(1, 21)]
